@@ -233,7 +233,14 @@ func TestC05(t *testing.T) {
 	if stats.Thorough() {
 		maxDepth = 5
 	}
-	check(t, 0, budget(16000, 200000), func(rt *rapid.T) {
+	check(t, 0, budget(16000, 200000), func(rt *rapid.T) { c05Property(rt, col, ampOpen, maxDepth, false) })
+	c05KnownProbes(t, col)
+	c05LiteralSeeds(t, col)
+}
+
+// c05Property is one generated case of the C05 check (also driven by the native fuzz target).
+func c05Property(rt *rapid.T, col *stats.Collector, ampOpen bool, maxDepth int, fuzz bool) {
+	{
 		typName := rapid.SampledFrom([]string{"int", "int", "float", "float", "string", "string", "bool", "bool", "bool", "time"}).Draw(rt, "type")
 		typ := c05Type(typName)
 		seed := rapid.Uint64Range(0, 1<<20).Draw(rt, "state_seed")
@@ -332,12 +339,13 @@ func TestC05(t *testing.T) {
 				}
 				msg := fmt.Sprintf("expression (canonical) %s\nrendering %d: %s\n%v\nreference value: %s", canon, i, text, verr, refValString(want))
 				path := col.Violation("C05", "C05/"+typName, msg, c)
+				if fuzz {
+					fmt.Printf("FUZZ-VIOLATION property=C05 replay=%s\n", path)
+				}
 				rt.Fatalf("C05 violated: %s (replay %s)", msg, path)
 			}
 		}
-	})
-	c05KnownProbes(t, col)
-	c05LiteralSeeds(t, col)
+	}
 }
 
 func bucket(n int) string {
